@@ -146,7 +146,11 @@ func (w *c18World) openFile(name, text string) []protocol.Diagnostic {
 		_ = w.s.DidOpen(w.ctx, &protocol.DidOpenTextDocumentParams{TextDocument: protocol.TextDocumentItem{URI: w.uri, Text: text}})
 		c18Settle()
 	} else {
-		w.s.StoreDocument(w.uri, text)
+		// the same notification as under the engine (it also hands the text to the workspace);
+		// its goroutine is muted and the analysis repeated here, so that nothing runs concurrently
+		zzNotify(w.s, func() {
+			_ = w.s.DidOpen(w.ctx, &protocol.DidOpenTextDocumentParams{TextDocument: protocol.TextDocumentItem{URI: w.uri, Text: text}})
+		})
 		w.s.publishDiagnostics(w.ctx, w.uri, text)
 	}
 	p := w.cl.last(w.uri)
